@@ -8,7 +8,18 @@ use xmlparser::{ElementEnd, ExternalId, StrSpan, TextPos, Token, Tokenizer};
 /// Parse a stream of root XML values.
 pub fn parse_many(s: &str) -> impl Iterator<Item = Result<Val, Error>> + '_ {
     let mut tokens = Tokenizer::from(s);
-    core::iter::from_fn(move || tokens.next().map(|tk| parse(tk?, &mut tokens)))
+    // after an error, the tokenizer is somewhere inside the broken element:
+    // do not resume parsing from there if the iterator is polled again,
+    // e.g. when `try input catch .` is followed by another `input`
+    let mut failed = false;
+    core::iter::from_fn(move || {
+        if failed {
+            return None;
+        }
+        let entry = tokens.next().map(|tk| parse(tk?, &mut tokens));
+        failed = matches!(entry, Some(Err(_)));
+        entry
+    })
 }
 
 /// Prefix and local name of a tag.
